@@ -1143,6 +1143,12 @@ class OFConnection (object):
         continue
 
       message_length = message[2] << 8 | message[3]
+      if message_length < 8:
+        # Can't be right (the header alone is 8 bytes), and we've lost
+        # track of where messages start.
+        self.log.error("Bad OpenFlow message length %s", message_length)
+        self.close()
+        break
       if message_length > len(message):
         break
 
